@@ -6,6 +6,11 @@
 //! some *commit ids* searched (by varying the description) to share 2–3 leading digits with an
 //! existing commit, hidden commits (`remove_head`), local bookmarks named like id prefixes, and an
 //! `IdPrefixContext` with a random disambiguation revset (visible and hidden commits).
+//! Cluster histories: 3–5 change ids agreeing on exactly the first 7…12 digits (around the 4-byte
+//! short key), every split of the cluster between in / outside the disambiguation set, every id and
+//! every prefix up to the reported length.  Table family: `IdIndex<CommitId|ChangeId, u32, 4>` itself
+//! over `[(CommitId, ChangeId)]` with chosen ids (commit ids of a real repo are hashes), every split
+//! inserted / not inserted (`ixshort`, `ixres`).
 //!
 //! Tie: the model gets the ids in the real index's position order together with the real segment
 //! sizes (`stats().commit_levels`; for the index inside a transaction: the base's levels plus one
@@ -19,9 +24,9 @@ use super::c18::{Hist, Pos, observe_positions, show_pos};
 use crate::rt::*;
 use jj_lib::backend::{ChangeId, CommitId};
 use jj_lib::default_index::DefaultReadonlyIndex;
-use jj_lib::id_prefix::{IdPrefixContext, IdPrefixIndex};
+use jj_lib::id_prefix::{IdIndex, IdIndexSourceEntry, IdPrefixContext, IdPrefixIndex};
 use jj_lib::index::{ResolvedChangeState, ResolvedChangeTargets};
-use jj_lib::object_id::{HexPrefix, ObjectId as _, PrefixResolution};
+use jj_lib::object_id::{HexPrefix, ObjectId, PrefixResolution};
 use jj_lib::op_store::RefTarget;
 use jj_lib::ref_name::RefName;
 use jj_lib::repo::{MutableRepo, ReadonlyRepo, Repo};
@@ -241,17 +246,37 @@ fn check_change_resolution(out: &mut Out, h: &Hist, st: &State, distinct: &[Stri
 /// queries through `IdPrefixContext` with a disambiguation revset
 fn probe_dis(out: &mut Out, r: &mut Rng, h: &Hist, st: &State, budget: usize) {
     let n = st.pos.at.len();
-    let sizes = show_list(&st.sizes);
-    let commits = show_ids(&st.commit_hex);
-    let changes = show_ids(&st.change_hex);
-    let heads = show_pos(&st.head_pos);
-    let label = st.label;
     // the disambiguation set: off / random subset (may include hidden commits)
     let dis: Option<Vec<usize>> = match r.below(6) {
         0 => None,
         1 => Some((0..n).collect()),
         _ => { let k = r.range(1, 4); Some((0..n).filter(|_| r.chance(1, k)).collect()) }
     };
+    probe_dis_with(out, r, h, st, budget, dis, false);
+}
+
+/// how an id relates to the short-key table of the disambiguation set `d` (ids per entry of the set)
+fn short_key_shape(out: &mut Out, cat: &str, all: &[String], d: &[String], id: &str) -> bool {
+    let inside = d.iter().any(|x| x == id);
+    let same: Vec<&String> = d.iter().filter(|x| x.len() >= 8 && id.len() >= 8 && x[..8] == id[..8]).collect();
+    // an id outside the set that shares more digits with `id` than every entry of the set does
+    let in_max = same.iter().filter(|x| **x != id).map(|x| common_len(x, id)).max().unwrap_or(0);
+    let closer_outside = all.iter().any(|x| x != id && !d.contains(x) && common_len(x, id) > in_max && common_len(x, id) >= 8);
+    out.tally(cat, &format!("{}, {} set entries with its short key{}", if inside { "inside" } else { "outside" },
+        match same.len() { 0 => "0", 1 => "1", _ => "2+" }, if closer_outside { ", a closer id outside" } else { "" }));
+    !inside && same.len() == 1
+}
+
+/// queries through `IdPrefixContext` with the disambiguation set `dis` (positions); `full`: every
+/// change id with every prefix up to the reported length (otherwise the shortest, the next shorter
+/// and a random one)
+fn probe_dis_with(out: &mut Out, r: &mut Rng, h: &Hist, st: &State, budget: usize, dis: Option<Vec<usize>>, full: bool) {
+    let n = st.pos.at.len();
+    let sizes = show_list(&st.sizes);
+    let commits = show_ids(&st.commit_hex);
+    let changes = show_ids(&st.change_hex);
+    let heads = show_pos(&st.head_pos);
+    let label = st.label;
     let ctx = match &dis {
         None => IdPrefixContext::new(Arc::new(RevsetExtensions::default())),
         Some(d) => IdPrefixContext::new(Arc::new(RevsetExtensions::default()))
@@ -277,6 +302,10 @@ fn probe_dis(out: &mut Out, r: &mut Rng, h: &Hist, st: &State, budget: usize) {
         let Ok(len) = got else { out.oracle_fail("dis-commit-prefix:panic", format!("{label}: {hx}")); continue };
         if dis.is_some() && in_dis(p) && len < common_len_max(&st.commit_hex, hx) + 1 { out.nontrivial(("dcshort", &commits, &dis_commits, hx)); }
         out.tally("dis-commit", if dis.is_none() { "off" } else if in_dis(p) { "inside" } else { "outside" });
+        if let Some(d) = &dis {
+            let d_hex: Vec<String> = d.iter().map(|&q| st.commit_hex[q].clone()).collect();
+            if short_key_shape(out, "dis-commit-short-key", &st.commit_hex, &d_hex, hx) { out.nontrivial(("dcshort-one-entry-chunk", &commits, &dis_commits, hx)); }
+        }
         for l in [len, len.saturating_sub(1), r.below(len + 1)] {
             let ps = &hx[..l.min(hx.len())];
             let pfx = HexPrefix::try_from_hex(ps).unwrap();
@@ -305,16 +334,29 @@ fn probe_dis(out: &mut Out, r: &mut Rng, h: &Hist, st: &State, budget: usize) {
     let st_dis = State { label: "dis", repo: st.repo, pos: Pos { at: st.pos.at.clone(), of: st.pos.of.clone(), enc: st.pos.enc.clone() },
         sizes: st.sizes.clone(), commit_hex: st.commit_hex.clone(), change_hex: st.change_hex.clone(), visible: st.visible.clone(),
         head_pos: st.head_pos.clone(), bookmarks: st.bookmarks.clone() };
+    let mut seen: HashMap<String, Result<PrefixResolution<ResolvedChangeTargets>, String>> = HashMap::new();
     for ch in &distinct {
         let cid = ChangeId::try_from_hex(ch).unwrap();
         let got = guard(|| pix.shortest_change_prefix_len(st.repo, &cid).block_on().unwrap());
         out.case(&format!("dchshort {sizes} {changes} {dis_changes} {} {ch}", show_ids(&refs_rev)), &got.as_ref().map(|l| l.to_string()).unwrap_or("panic".into()));
         let Ok(len) = got else { out.oracle_fail("dis-change-prefix:panic", format!("{label}: {ch}")); continue };
-        for l in [len, len.saturating_sub(1), r.below(len + 1)] {
+        if let Some(d) = &dis {
+            let d_hex: Vec<String> = d.iter().map(|&q| st.change_hex[q].clone()).collect();
+            if short_key_shape(out, "dis-change-short-key", &distinct, &d_hex, ch) { out.nontrivial(("dchshort-one-entry-chunk", &changes, &dis_changes, ch)); }
+        }
+        let lens: Vec<usize> = if full { (0..=len.min(ch.len())).rev().collect() } else { vec![len, len.saturating_sub(1), r.below(len + 1)] };
+        for l in lens {
             let ps = &ch[..l.min(ch.len())];
             let pfx = HexPrefix::try_from_hex(ps).unwrap();
-            let res = guard(|| pix.resolve_change_prefix(st.repo, &pfx).block_on().unwrap());
-            out.case(&format!("dchres {sizes} {changes} {} {heads} {dis_changes} {}", st.pos.enc, pfx_str(ps)), &show_res_change(st, h, &res));
+            // (in `full` mode the ids share most of their prefixes: one request per prefix, the
+            // property's statement is still evaluated for every id)
+            let fresh = !full || !seen.contains_key(ps);
+            let res = match seen.get(ps) {
+                Some(res) if full => res.clone(),
+                _ => guard(|| pix.resolve_change_prefix(st.repo, &pfx).block_on().unwrap()),
+            };
+            if full { seen.insert(ps.to_string(), res.clone()); }
+            if fresh { out.case(&format!("dchres {sizes} {changes} {} {heads} {dis_changes} {}", st.pos.enc, pfx_str(ps)), &show_res_change(st, h, &res)); }
             if dis.is_some() && l >= 1 { out.nontrivial(("dchres", &changes, &dis_changes, &st.pos.enc, ps)); }
             check_change_resolution(out, h, &st_dis, &distinct, ch, ps, l >= len, &res);
             // a shorter prefix resolving to the same change is only allowed when a bookmark shadows it
@@ -359,15 +401,248 @@ fn make_state<'a>(out: &mut Out, h: &Hist, repo: &'a dyn Repo, sizes: Vec<u64>, 
     Some(State { label, repo, pos, sizes, commit_hex, change_hex, visible, head_pos, bookmarks })
 }
 
+// ---------------------------------------------------------------------------------------------
+// Clusters of ids agreeing on the first k digits (k around the 4-byte short key of `IdIndex`)
+// ---------------------------------------------------------------------------------------------
+
+fn digit(b: &[u8], d: usize) -> u8 { if d % 2 == 0 { b[d / 2] >> 4 } else { b[d / 2] & 0x0f } }
+fn set_digit(b: &mut [u8], d: usize, v: u8) {
+    b[d / 2] = if d % 2 == 0 { (b[d / 2] & 0x0f) | (v << 4) } else { (b[d / 2] & 0xf0) | v };
+}
+
+/// `m` distinct ids of `nbytes` bytes that agree on exactly the first `k` digits as a group: digits
+/// `k, k+1, k+2` are taken from a two-letter alphabet per position (both letters occur at digit `k`),
+/// so sub-groups agree on `k+1` and `k+2` digits; all other digits are those of one random base.
+fn cluster_ids(r: &mut Rng, k: usize, m: usize, nbytes: usize) -> Vec<Vec<u8>> {
+    assert!(k + 3 <= 2 * nbytes && (2..=8).contains(&m));
+    let base: Vec<u8> = (0..nbytes).map(|_| r.below(256) as u8).collect();
+    let letters: Vec<(u8, u8)> = (0..3).map(|_| { let a = r.below(16) as u8; (a, (a + 1 + r.below(15) as u8) % 16) }).collect();
+    let tails: Vec<usize> = loop {
+        let mut t: Vec<usize> = (0..8).collect();
+        for i in 0..m { let j = i + r.below(8 - i); t.swap(i, j); }
+        t.truncate(m);
+        if t.iter().any(|x| x & 4 == 0) && t.iter().any(|x| x & 4 != 0) { break t; }
+    };
+    tails.iter().map(|t| {
+        let mut b = base.clone();
+        for (i, (a0, a1)) in letters.iter().enumerate() {
+            set_digit(&mut b, k + i, if (t >> (2 - i)) & 1 == 0 { *a0 } else { *a1 });
+        }
+        b
+    }).collect()
+}
+
+/// an id that leaves `base` at digit `d` (shares exactly `d` digits with it)
+fn branch_at(r: &mut Rng, base: &[u8], d: usize) -> Vec<u8> {
+    let mut b = base.to_vec();
+    let v = (digit(&b, d) + 1 + r.below(15) as u8) % 16;
+    set_digit(&mut b, d, v);
+    for x in d + 1..2 * base.len() { if r.chance(1, 2) { set_digit(&mut b, x, r.below(16) as u8); } }
+    b
+}
+
+/// all subsets of `0..n` as bit masks; above 32 subsets: those of at most two elements plus random ones
+fn splits(r: &mut Rng, n: usize) -> Vec<u32> {
+    let total = 1u32 << n;
+    if total <= 32 { return (0..total).collect(); }
+    let mut v: Vec<u32> = (0..total).filter(|s| s.count_ones() <= 2).collect();
+    while v.len() < 32 { let s = r.below(total as usize) as u32; if !v.contains(&s) { v.push(s); } }
+    v
+}
+
+/// One repository whose change ids contain a cluster of `m` ids agreeing on exactly the first `k`
+/// digits (sub-groups on `k+1`, `k+2`), an id branching off inside the short key, an unrelated id
+/// and sometimes a second commit of a cluster change; every split of the cluster's commits between
+/// "in the disambiguation set" and "outside" is queried for every change id and every prefix up to
+/// the reported length.
+fn cluster_history(out: &mut Out, r: &mut Rng, hist_no: u64, k: usize, m: usize) {
+    let test_repo = TestRepo::init();
+    let mut repo: Arc<ReadonlyRepo> = test_repo.repo.clone();
+    let store = repo.store().clone();
+    let mut h = Hist { commits: vec![], by_id: HashMap::new(), anc: vec![], depth: vec![], counter: hist_no * 100_000 };
+    h.push(store.root_commit());
+    let cluster = cluster_ids(r, k, m, 16);
+    let cluster_hex: Vec<String> = cluster.iter().map(|b| hexs(b)).collect();
+    let mut plan: Vec<Vec<u8>> = cluster.clone();
+    let d = r.range(3, 7.min(k - 1));
+    plan.push(branch_at(r, &cluster[0], d));
+    plan.push((0..16).map(|_| r.below(256) as u8).collect());
+    if r.chance(1, 3) { plan.push(cluster[r.below(m)].clone()); }
+    for i in (1..plan.len()).rev() { let j = r.below(i + 1); plan.swap(i, j); }
+    // one or two transactions (index segments)
+    let cut = if r.chance(1, 2) { plan.len() } else { r.range(1, plan.len() - 1) };
+    let mut indexed: BTreeSet<usize> = [0].into_iter().collect();
+    for part in [&plan[..cut], &plan[cut..]] {
+        if part.is_empty() { continue; }
+        let mut tx = repo.start_transaction();
+        let tree = tx.repo().store().empty_merged_tree();
+        for ch in part {
+            let avail: Vec<usize> = indexed.iter().copied().collect();
+            let mut ps = vec![*r.pick(&avail)];
+            if r.chance(1, 4) { let c = *r.pick(&avail); if !ps.contains(&c) && c != 0 && ps[0] != 0 { ps.push(c); } }
+            let parents: Vec<CommitId> = ps.iter().map(|&c| h.commits[c].id().clone()).collect();
+            h.counter += 1;
+            let c = tx.repo_mut().new_commit(parents, tree.clone()).set_description(format!("k{}", h.counter))
+                .set_change_id(ChangeId::new(ch.clone())).write().block_on().unwrap();
+            if h.by_id.contains_key(c.id()) { continue; }
+            indexed.insert(h.push(c));
+        }
+        repo = tx.commit("cluster").block_on().unwrap();
+    }
+    let sizes = sizes_of(&repo);
+    let Some(st) = make_state(out, &h, repo.as_ref(), sizes, "cluster", &indexed) else { return };
+    out.tally("cluster-history", &format!("{k:02} shared digits, {m} ids"));
+    probe_plain(out, r, &h, &st, 4);
+    let n = st.pos.at.len();
+    let cpos: Vec<usize> = (0..n).filter(|&p| cluster_hex.contains(&st.change_hex[p])).collect();
+    let opos: Vec<usize> = (0..n).filter(|&p| !cluster_hex.contains(&st.change_hex[p])).collect();
+    for split in splits(r, cpos.len()) {
+        let mut d: Vec<usize> = cpos.iter().enumerate().filter(|(i, _)| split >> i & 1 == 1).map(|(_, &p)| p).collect();
+        d.extend(opos.iter().copied().filter(|_| r.chance(1, 2)));
+        d.sort();
+        out.tally("cluster-split", &format!("{} in / {} out", split.count_ones(), cpos.len() as u32 - split.count_ones()));
+        probe_dis_with(out, r, &h, &st, 2, Some(d), true);
+    }
+}
+
+// ---------------------------------------------------------------------------------------------
+// The `IdIndex` short-key table itself, with chosen commit ids and change ids
+// ---------------------------------------------------------------------------------------------
+
+/// `IdIndex<K, u32, 4>` over the same source table type as `IdPrefixContext`'s indexes
+/// (`[(CommitId, ChangeId)]`), filled with the rows `rows` of `src`; `all` = hex of the key of every
+/// row of `src` (queried whether inserted or not).
+fn probe_table<K>(out: &mut Out, r: &mut Rng, kind: &str, src: &[(CommitId, ChangeId)], rows: &[usize], max_prefix: usize)
+where K: ObjectId + Ord + Clone, for<'a> &'a (CommitId, ChangeId): IdIndexSourceEntry<K> {
+    let key_of = |i: usize| -> K { IdIndexSourceEntry::<K>::to_key(&&src[i]) };
+    let table: Vec<(CommitId, ChangeId)> = rows.iter().map(|&i| src[i].clone()).collect();
+    let mut b = IdIndex::<K, u32, 4>::with_capacity(table.len());
+    for (i, e) in table.iter().enumerate() { b.insert(&IdIndexSourceEntry::<K>::to_key(&e), i as u32); }
+    let idx = b.build();
+    let keys: Vec<String> = rows.iter().map(|&i| key_of(i).hex()).collect();
+    let keys_s = show_ids(&keys);
+    let distinct: BTreeSet<&String> = keys.iter().collect();
+    let mut seen: BTreeSet<String> = BTreeSet::new();
+    for q in 0..src.len() {
+        let key = key_of(q);
+        let hx = key.hex();
+        if !seen.insert(format!("k{hx}")) { continue; }
+        let got = guard(|| idx.lookup_exact(&*table, &key).map(|l| l.shortest_unique_prefix_len()));
+        out.case(&format!("ixshort {keys_s} {hx}"), &match &got { Ok(o) => show_opt(o.map(|l| l as u64)), Err(_) => "panic".into() });
+        let inside = distinct.contains(&hx);
+        let same = keys.iter().filter(|x| x[..8] == hx[..8]).count();
+        out.tally(&format!("table-{kind}"), &format!("{}, {} entries with its short key", if inside { "inside" } else { "outside" }, match same { 0 => "0", 1 => "1", _ => "2+" }));
+        if same >= 1 { out.nontrivial(("ixshort", kind, &keys_s, &hx)); }
+        // the accessor exists exactly for the keys of the table; its length is unique and minimal there
+        match got {
+            Ok(None) if !inside => out.oracle_ok(),
+            Ok(Some(len)) if inside => {
+                let others = |l: usize| distinct.iter().filter(|x| ***x != hx && x.starts_with(&hx[..l.min(hx.len())])).count();
+                if len == 0 || len > hx.len() + 1 || others(len) != 0 {
+                    out.oracle_fail("id-index:shortest-not-unique", format!("{kind} keys {keys_s}, key {hx}, len {len}"));
+                } else if len > 1 && others(len - 1) == 0 {
+                    out.oracle_fail("id-index:shortest-not-minimal", format!("{kind} keys {keys_s}, key {hx}, len {len}"));
+                } else { out.oracle_ok(); }
+            }
+            Ok(Some(len)) => out.oracle_fail("id-index:lookup-exact-finds-absent-key", format!("{kind} keys {keys_s}, absent key {hx} → length {len}")),
+            Ok(None) => out.oracle_fail("id-index:lookup-exact-misses-key", format!("{kind} keys {keys_s}, key {hx}")),
+            Err(e) => out.oracle_fail("id-index:panic", format!("{kind} keys {keys_s}, key {hx}: {e}")),
+        }
+        let top = max_prefix.min(hx.len());
+        let mut lens: Vec<usize> = (0..=top).collect();
+        if top < hx.len() { lens.push(hx.len()); lens.push(r.range(top, hx.len())); }
+        for l in lens {
+            let ps = &hx[..l];
+            if !seen.insert(format!("p{ps}")) { continue; }
+            let pfx = HexPrefix::try_from_hex(ps).unwrap();
+            let res = guard(|| idx.resolve_prefix_to_key(&*table, &pfx));
+            let shown = match &res {
+                Ok(PrefixResolution::NoMatch) => "none".to_string(),
+                Ok(PrefixResolution::AmbiguousMatch) => "amb".to_string(),
+                Ok(PrefixResolution::SingleMatch(k)) => format!("one:{}", k.hex()),
+                Err(_) => "panic".to_string(),
+            };
+            out.case(&format!("ixres {keys_s} {}", pfx_str(ps)), &shown);
+            let m: Vec<&&String> = distinct.iter().filter(|x| x.starts_with(ps)).collect();
+            if l >= 8 || m.len() >= 2 { out.nontrivial(("ixres", kind, &keys_s, ps)); }
+            let ok = match &res {
+                // ("We consider an empty prefix ambiguous even if the index has a single entry.")
+                _ if ps.is_empty() => matches!(res, Ok(PrefixResolution::AmbiguousMatch)),
+                Ok(PrefixResolution::NoMatch) => m.is_empty(),
+                Ok(PrefixResolution::AmbiguousMatch) => m.len() >= 2,
+                Ok(PrefixResolution::SingleMatch(k)) => m.len() == 1 && **m[0] == k.hex(),
+                Err(_) => false,
+            };
+            if ok { out.oracle_ok(); } else { out.oracle_fail("id-index:resolution-disagrees-with-key-set", format!("{kind} keys {keys_s}, prefix {ps} → {shown}")); }
+        }
+    }
+}
+
+/// source rows whose commit ids and change ids each contain a cluster agreeing on `k` digits, a key
+/// branching off inside the short key and an unrelated key; with `dup`, one more row repeating a
+/// cluster change id (two commits of one change)
+fn table_rows(r: &mut Rng, nbytes: usize, k: usize, m: usize, dup: bool) -> (Vec<(CommitId, ChangeId)>, usize) {
+    let mut cols: Vec<Vec<Vec<u8>>> = vec![];
+    for _ in 0..2 {
+        let mut c = cluster_ids(r, k, m, nbytes);
+        if dup { let x = c[r.below(m)].clone(); c.push(x); }
+        let d = r.range(1, 7.min(k.max(2) - 1));
+        c.push(branch_at(r, &c[0], d));
+        c.push((0..nbytes).map(|_| r.below(256) as u8).collect());
+        cols.push(c);
+    }
+    if dup { let j = m; let fresh = (0..nbytes).map(|_| r.below(256) as u8).collect(); cols[0][j] = fresh; }
+    let n_cluster = if dup { m + 1 } else { m };
+    (cols[0].iter().zip(&cols[1]).map(|(a, b)| (CommitId::new(a.clone()), ChangeId::new(b.clone()))).collect(), n_cluster)
+}
+
+fn table_family(cfg: &Cfg, out: &mut Out, r: &mut Rng) {
+    // systematic: (id bytes, shared digits, cluster size); every split of the cluster rows
+    let mut configs: Vec<(usize, usize, usize)> = vec![(4, 3, 3), (4, 5, 3), (8, 6, 3), (8, 7, 3), (8, 8, 3), (8, 9, 3), (8, 10, 3), (8, 12, 3),
+        (20, 8, 3), (20, 11, 3), (8, 8, 4), (8, 9, 4), (16, 10, 4)];
+    if cfg.tier != Tier::Quick { for nb in [8, 16, 20, 32] { for k in 5..=13 { for m in 3..=5 { configs.push((nb, k, m)); } } } }
+    for _ in 0..cfg.scale.min(4) {
+        for &(nb, k, m) in &configs {
+            let dup = r.chance(1, 3);
+            let (src, nc) = table_rows(r, nb, k, m, dup);
+            for split in splits(r, nc) {
+                let mut rows: Vec<usize> = (0..nc).filter(|i| split >> i & 1 == 1).collect();
+                rows.extend((nc..src.len()).filter(|_| r.chance(1, 2)));
+                for i in (1..rows.len()).rev() { let j = r.below(i + 1); rows.swap(i, j); }
+                out.tally("table-split", &format!("{} in / {} out", split.count_ones(), nc as u32 - split.count_ones()));
+                probe_table::<CommitId>(out, r, "commit", &src, &rows, k + 4);
+                probe_table::<ChangeId>(out, r, "change", &src, &rows, k + 4);
+            }
+        }
+    }
+    // random: cluster depth, size, id length and subset all random
+    for _ in 0..cfg.n(120, 2000) {
+        let nb = *r.pick(&[4usize, 5, 8, 16, 20, 32]);
+        let k = r.below((2 * nb - 3).min(13) + 1);
+        let m = r.range(2, 6);
+        let dup = r.chance(1, 3);
+        let (src, _) = table_rows(r, nb, k, m, dup);
+        let den = r.range(2, 4);
+        let mut rows: Vec<usize> = (0..src.len()).filter(|_| r.chance(1, den)).collect();
+        for i in (1..rows.len()).rev() { let j = r.below(i + 1); rows.swap(i, j); }
+        if r.chance(1, 2) { probe_table::<CommitId>(out, r, "commit", &src, &rows, k + 4); } else { probe_table::<ChangeId>(out, r, "change", &src, &rows, k + 4); }
+    }
+}
+
 /// change ids that share long prefixes: all start from one base, differing at chosen digit positions
 fn change_pool(r: &mut Rng) -> Vec<ChangeId> {
     let base: Vec<u8> = (0..16).map(|_| [0xab, 0xab, 0x00, 0xff][r.below(4)]).collect();
     let spots = [0usize, 1, 2, 3, 6, 7, 8, 9, 10, 15, 30, 31];
+    // "deep" pools: most ids agree on the whole 4-byte short key of `IdIndex` (clusters of three and
+    // more ids inside one short-key chunk, split at random by the disambiguation set)
+    let deep_spots = [8usize, 9, 10, 11, 12, 15, 30, 31];
+    let deep = r.chance(1, 2);
     let mut pool = BTreeSet::new();
     for _ in 0..r.range(2, 8) {
         let mut b = base.clone();
+        let here: &[usize] = if deep && r.chance(4, 5) { &deep_spots } else { &spots };
         for _ in 0..r.range(1, 2) {
-            let d = *r.pick(&spots);
+            let d = *r.pick(here);
             let v = r.below(16) as u8;
             b[d / 2] = if d % 2 == 0 { (b[d / 2] & 0x0f) | (v << 4) } else { (b[d / 2] & 0xf0) | v };
         }
@@ -506,5 +781,22 @@ pub fn run(cfg: &Cfg, out: &mut Out) {
     for hist_no in 0..n {
         one_history(cfg, out, &mut r, hist_no);
     }
-    out.note(format!("{n} histories; change ids from a pool with shared prefixes (differences before/at/after digit 8), searched commit-id prefixes, hidden heads, prefix-named bookmarks, random disambiguation sets"));
+    // clusters of change ids agreeing on 6..13 digits × every in/out split of the disambiguation set
+    let mut rc = cfg.rng(2020);
+    let mut hist_no = n;
+    let ks: &[usize] = if cfg.tier == Tier::Quick { &[7, 8, 9, 10, 11, 12] } else { &[6, 7, 8, 9, 10, 11, 12, 13] };
+    let reps = if cfg.tier == Tier::Quick { 1 } else { 4 } * cfg.scale.min(4);
+    for _ in 0..reps {
+        for &k in ks {
+            for m in [3usize, 4, 5] {
+                if cfg.tier == Tier::Quick && m == 5 && k % 2 == 1 { continue; }
+                cluster_history(out, &mut rc, hist_no, k, m);
+                hist_no += 1;
+            }
+        }
+    }
+    // the short-key table itself with chosen commit ids / change ids
+    let mut rt = cfg.rng(2021);
+    table_family(cfg, out, &mut rt);
+    out.note(format!("{n} histories; change ids from a pool with shared prefixes (differences before/at/after digit 8), searched commit-id prefixes, hidden heads, prefix-named bookmarks, random disambiguation sets; {} cluster histories (ids agreeing on {ks:?} digits, every in/out split); IdIndex tables with chosen commit/change ids", hist_no - n));
 }
